@@ -9,6 +9,8 @@ TRUST = ('Trusted: nightly MIR == what stable rustc builds (counterexamples are 
          '(listed per run in the evidence, validated by the concrete differential self-test against the native binary). ')
 
 CLAIMED = {
+    'C18': ('from_url_with_settings / new_tcp / new_unix run from the coroutine MIR of the default-feature (TLS) build up to the first socket call, with url::Url::{scheme,host_str,port} and the pre-opened stream kind as nondeterministic stubs: for every scheme (ldap, ldaps, ldapi, any other), host (absent, empty, 1..3 (4) symbolic host characters incl. percent sequences), port (absent or any u16), stream kind, timeout and StartTLS flag z3 proves the documented error for unknown schemes / empty or port-bearing ldapi paths / mismatched streams, the TCP target (URL host or localhost, URL port or 389/636), the percent-decoded Unix path, that a connection timeout wraps the whole new_tcp future, and that no path panics.',
+            TRUST + 'Pre-connect part only: socket establishment, StartTLS and the TLS handshake are outside (C17 is not applicable). Stub contract of the url crate accessors is validated on every replay.', '§6 C18'),
     'C14': ('Each of the 22 LdapConn / EntryStream methods runs from MIR with Runtime::block_on modelled as "drive to completion" and the same-named Ldap / SearchStream method as an intercepted, uninterpreted callee resolving to Ok(token) or Err(token), with the handle\'s closed flag symbolic: exactly one forwarded call, to the right method, on the wrapper\'s own handle/stream, arguments unchanged, returned value exactly the callee\'s; with_controls/with_timeout/with_search_options/last_id/is_closed compared with the async versions on an identical handle. Counterexamples are reproduced as a behavioural difference between both APIs against the same scripted in-process peer.',
             TRUST + 'The tokio runtime is trusted; what the async methods themselves do is C02/C10. Connection establishment is C18; gssapi/ntlm binds are not built.', '§6 C14'),
     'C02': ('Envelope: LdapCodec::encode -> build_tag -> encode_into from MIR for every message ID in 1..2^31-1, None/Some(0..2 (3)) controls with symbolic OID/criticality/value, operation bodies incl. lengths across the 127/128 boundary, against a reference RFC 4511 encoder. Builders: each of the 11 operations (15 argument shapes: every Mod variant, present/absent newSuperior and extended value, empty-value Add refused, search options) is executed from its async-fn coroutine MIR up to Ldap::op_call; the captured (LdapOp, request) goes through the real codec and z3 proves the bytes equal the reference PDU of the symbolic arguments (SET OF as multiset). op_call up to the reply wait: queued ID = freshly allocated ID, exactly the handle\'s controls travel, controls and timeout cleared afterwards, timer armed iff a timeout was set; search options consumed; Ldap::clone() carries no pending modifiers.',
